@@ -181,9 +181,11 @@ func (p *Path) oblige(kind, site, clause, formula string) {
 
 func (p *Path) cover(kind, site string) {
 	name := p.fx.short + ".cover." + kind
-	if site != "" {
+	if site != "" && kind != "return" {
 		name += "@" + site
 	}
+	// return covers are aggregated per function: some exit must be reachable under the assumed contracts; an
+	// individual return may be legitimately dead (e.g. an error branch a callee's contract excludes)
 	p.items = append(p.items, Item{Ob: &Oblig{Name: name, Fn: p.fx.short, Kind: "cover", Formula: "false", Trace: p.traceStr(), Cover: true, Site: site}})
 }
 
@@ -274,7 +276,8 @@ func (p *Path) declHeap(t, name, now string) {
 		}
 		switch es {
 		case "Ref":
-			p.assume(fmt.Sprintf("(forall ((a Ref)) (! (<= (stamp (select %s a)) %s) :pattern ((select %s a))))", t, now, t))
+			// program pointers are allocated and never point at ghost variables
+			p.assume(fmt.Sprintf("(forall ((a Ref)) (! (and (<= (stamp (select %s a)) %s) (not (= (ftag (select %s a)) (- 4))) (< (ftag (select %s a)) 1000000)) :pattern ((select %s a))))", t, now, t, t, t))
 		case "Slice":
 			p.assume(fmt.Sprintf("(forall ((a Ref)) (! (and (<= (stamp (sl.arr (select %s a))) %s) (<= 0 (sl.off (select %s a))) (<= 0 (sl.len (select %s a))) (<= (sl.len (select %s a)) (sl.cap (select %s a))) (<= (sl.cap (select %s a)) 72057594037927936)) :pattern ((select %s a))))", t, now, t, t, t, t, t, t))
 		case "Iface":
@@ -368,6 +371,12 @@ func (p *Path) outside(v ssa.Value) Val {
 	if instr, ok := v.(ssa.Instruction); ok {
 		if def, ok := p.pureDef(instr); ok {
 			p.assume(fmt.Sprintf("(= %s %s)", name, def))
+		} else if ld, ok := instr.(*ssa.UnOp); ok && ld.Op == token.MUL && isScalar(ld.Type()) && p.fx.spec != nil && !p.fx.spec.ModAll && !p.fx.modAll {
+			// a load from a location that existed at entry and is outside the modifies clause reads the entry value
+			// (function-level frame, proved at every write)
+			hn := p.fx.env.memHeap(ld.Type())
+			addr := p.val(ld.X).T
+			p.assume(fmt.Sprintf("(=> (and (<= (stamp %s) now_0) (not %s)) (= %s (select %s %s)))", addr, p.modCond(hn, addr), name, p.heapIn(&p.entry, hn), addr))
 		}
 		if a, ok := v.(*ssa.Alloc); ok {
 			p.assume(fmt.Sprintf("(and (not (= %s nil)) (> (stamp %s) %s) (<= (stamp %s) %s) (= (ftag %s) 0))", name, name, p.entry.now, name, p.st.epochNow, name))
@@ -515,6 +524,9 @@ func (p *Path) constVal(c *ssa.Const) Val {
 }
 
 func (p *Path) floatConst(s string) string {
+	if s == "0" {
+		return "f64_zero"
+	}
 	n := "f64c_" + sanitize(s)
 	p.fx.env.decl("f64:"+n, fmt.Sprintf("(declare-const %s F64)", n))
 	return n
@@ -536,7 +548,7 @@ func (p *Path) assumeWF(term string, t types.Type) {
 			p.assume(fmt.Sprintf("(and (<= %s %s) (<= %s %s))", lo, term, term, hi))
 		}
 	case *types.Pointer, *types.Map, *types.Chan, *types.Signature:
-		p.assume(fmt.Sprintf("(<= (stamp %s) %s)", term, p.st.now))
+		p.assume(fmt.Sprintf("(and (<= (stamp %s) %s) (not (= (ftag %s) (- 4))) (< (ftag %s) 1000000))", term, p.st.now, term, term))
 	case *types.Slice:
 		p.assume(fmt.Sprintf("(and (<= (stamp (sl.arr %s)) %s) (<= 0 (sl.off %s)) (<= 0 (sl.len %s)) (<= (sl.len %s) (sl.cap %s)) (<= (sl.cap %s) 72057594037927936) (=> (= (sl.arr %s) nil) (= (sl.cap %s) 0)))", term, p.st.now, term, term, term, term, term, term, term))
 	case *types.Interface:
@@ -666,6 +678,8 @@ type Loc struct {
 	RowsHeap string
 	RowsN   int64
 	AllTag  int // every address whose field tag is this one (modifies fields(T.f))
+	AnyHeap bool // the single address Addr in every scalar memory heap (modifies cell(x))
+	Pred    string // every address satisfying this condition (with %ADDR% for the address): modifies region(pred)
 	MapRow bool                   // whole map row (Addr is the map ref) in a MapHas/MapVal heap
 	All    bool
 }
